@@ -184,7 +184,8 @@ def sc_fallback(d, n, nq, normal, partial=False, missing=NAN):
             else:
                 d.prove(d.le(0, v), "fallback_std_non_negative")
     # sample_y of the wrapper falls back as well: shape (n_query, n_samples), reproducible for a fixed random_state
-    if normal:
+    # (SklearnRegressor: the wrapped stub offers sample_y and raises NotFittedError, so the wrapper's own fallback draws)
+    if True:
         seed = d.integer("seed", 0, 2 ** 31 - 2)
         try:
             s1 = reg.sample_y(Xq, n_samples=2, random_state=seed)
